@@ -1042,7 +1042,45 @@ func c15FirstDiagnostic(c *Ctx) {
 			}
 		}
 	})
+	if !fmtOK {
+		// the same text assembled otherwise (concatenation, Itoa): compare the skeleton of constant pieces and holes
+		instrs(fd, func(b *ssa.BasicBlock, i int, in ssa.Instruction) {
+			if ret, isR := in.(*ssa.Return); isR && len(ret.Results) == 1 {
+				if sk, ok := stringSkeleton(ret.Results[0], 0); ok && sk == "pos(\x00, \x00) \x00(\x00) \x00" {
+					fmtOK = true
+				}
+			}
+		})
+	}
 	c.R.Check(rule, "message-form", c.P.Pos(fd.Pos()), fmtOK, "the error must have the form `pos(line, column) error(code) message`")
+	// ... with line, column, code and message text in those places
+	fieldsOK := false
+	instrs(fd, func(b *ssa.BasicBlock, i int, in ssa.Instruction) {
+		ret, isR := in.(*ssa.Return)
+		if !isR || len(ret.Results) != 1 {
+			return
+		}
+		holes := stringHoles(ret.Results[0], 0)
+		if len(holes) != 5 {
+			return
+		}
+		endsWith := func(v ssa.Value, fld string) bool {
+			rs := plainOrigins.Roots(v)
+			if len(rs) == 0 {
+				return false
+			}
+			for _, rt := range rs {
+				if len(rt.Path) == 0 || rt.Path[len(rt.Path)-1] != fld {
+					return false
+				}
+			}
+			return true
+		}
+		if endsWith(holes[0], "Line") && endsWith(holes[1], "Column") && endsWith(holes[3], "Code") && endsWith(holes[4], "MessageText") {
+			fieldsOK = true
+		}
+	})
+	c.R.Check(rule, "message-fields", c.P.Pos(fd.Pos()), fieldsOK, "the five places of `pos(L, C) category(code) message` must be filled with the position's Line, its Column, the category, the diagnostic's Code and its MessageText, in that order")
 	c.R.Floor(rule, 3)
 }
 
@@ -1233,4 +1271,110 @@ func (c *Ctx) reachesFn(f, g *ssa.Function) bool {
 		return false
 	}
 	return c.P.Reach([]*ssa.Function{f}, c.inModule, nil).In[g]
+}
+
+// stringSkeleton renders a string-valued expression as its constant pieces with \x00 for every computed piece:
+// concatenations, fmt.Sprintf with a constant format (each verb is a hole), strconv / Sprint conversions (a hole).
+func stringSkeleton(v ssa.Value, depth int) (string, bool) {
+	if depth > 12 {
+		return "", false
+	}
+	switch x := v.(type) {
+	case *ssa.Const:
+		if x.Value != nil && x.Value.Kind() == constant.String {
+			return constant.StringVal(x.Value), true
+		}
+		return "", false
+	case *ssa.BinOp:
+		if x.Op != token.ADD {
+			return "", false
+		}
+		l, ok1 := stringSkeleton(x.X, depth+1)
+		r, ok2 := stringSkeleton(x.Y, depth+1)
+		return l + r, ok1 && ok2
+	case *ssa.Call:
+		cal := calleeOf(x)
+		if cal != nil && cal.String() == "fmt.Sprintf" {
+			if k, ok := x.Call.Args[0].(*ssa.Const); ok && k.Value != nil && k.Value.Kind() == constant.String {
+				f := constant.StringVal(k.Value)
+				var out []byte
+				for i := 0; i < len(f); i++ {
+					if f[i] == '%' && i+1 < len(f) {
+						if f[i+1] == '%' {
+							out = append(out, '%')
+						} else {
+							out = append(out, 0)
+						}
+						i++
+						continue
+					}
+					out = append(out, f[i])
+				}
+				return string(out), true
+			}
+		}
+		return "\x00", true
+	}
+	return "\x00", true
+}
+
+// stringHoles: the computed pieces of a string expression, in order (see stringSkeleton); conversions such as
+// strconv.Itoa(x), fmt.Sprint(x) and Sprintf arguments yield x.
+func stringHoles(v ssa.Value, depth int) []ssa.Value {
+	if depth > 12 {
+		return nil
+	}
+	switch x := v.(type) {
+	case *ssa.Const:
+		return nil
+	case *ssa.BinOp:
+		if x.Op == token.ADD {
+			return append(stringHoles(x.X, depth+1), stringHoles(x.Y, depth+1)...)
+		}
+	case *ssa.Call:
+		cal := calleeOf(x)
+		if cal == nil {
+			return []ssa.Value{v}
+		}
+		switch cal.String() {
+		case "fmt.Sprintf":
+			// the variadic arguments: elements stored into the argument array
+			if len(x.Call.Args) == 2 {
+				if arr := localArrayLiteral(x.Call.Args[1]); arr != nil {
+					byIdx := map[int64]ssa.Value{}
+					var max int64 = -1
+					for _, ref := range *arr.Referrers() {
+						ia, ok := ref.(*ssa.IndexAddr)
+						if !ok {
+							continue
+						}
+						k, isK := constIntArg(ia.Index)
+						if !isK {
+							continue
+						}
+						for _, r2 := range *ia.Referrers() {
+							if st, ok := r2.(*ssa.Store); ok && st.Addr == ssa.Value(ia) {
+								byIdx[k] = st.Val
+								if k > max {
+									max = k
+								}
+							}
+						}
+					}
+					var out []ssa.Value
+					for k := int64(0); k <= max; k++ {
+						out = append(out, byIdx[k])
+					}
+					return out
+				}
+			}
+			return []ssa.Value{v}
+		case "strconv.Itoa", "strconv.FormatInt", "fmt.Sprint":
+			if len(x.Call.Args) >= 1 {
+				return []ssa.Value{x.Call.Args[0]}
+			}
+		}
+		return []ssa.Value{v}
+	}
+	return []ssa.Value{v}
 }
